@@ -213,8 +213,9 @@ type leftoverObserver struct {
 	before   map[string]fileID
 	after    map[string]fileID
 	created  map[string]int  // path -> creating process
-	commitOK map[string]bool // path -> a commit of this path completed
-	inCommit map[int]bool
+	commitOK map[string]bool // path -> the table was committed by its transaction
+	inCommit map[int]bool    // process is in the swap phase of a COMMIT
+	early    map[int][]string // created files released "as committed" before the swap phase of the current commit
 }
 
 func newLeftoverObserver(files []FileSpec) *leftoverObserver {
@@ -231,11 +232,33 @@ func (l *leftoverObserver) OnArrival(k *Kernel, g *G, a *arrival) {
 			l.created[k.Norm(a.arg[2:])] = g.proc.idx
 		}
 	case "h.released":
+		// A created table is committed when its handler is released as
+		// committed in the swap phase of COMMIT (every table has been written by
+		// then), or when the COMMIT that released it completes. A release "as
+		// committed" while other tables are still being written does not count
+		// if that COMMIT then fails.
 		if strings.HasPrefix(a.arg, "commit ") {
-			l.commitOK[k.Norm(a.arg[7:])] = true
+			path := k.Norm(a.arg[7:])
+			if l.inCommit[g.proc.idx] {
+				l.commitOK[path] = true
+			} else {
+				if l.early == nil {
+					l.early = map[int][]string{}
+				}
+				l.early[g.proc.idx] = append(l.early[g.proc.idx], path)
+			}
 		}
 	case "tx.commit.swap":
 		l.inCommit[g.proc.idx] = true
+	case "tx.commit.done":
+		for _, path := range l.early[g.proc.idx] {
+			l.commitOK[path] = true
+		}
+		delete(l.early, g.proc.idx)
+		l.inCommit[g.proc.idx] = false
+	case "tx.rollback.done":
+		delete(l.early, g.proc.idx)
+		l.inCommit[g.proc.idx] = false
 	}
 }
 
